@@ -180,6 +180,7 @@ class Interp:
         self.nonneg = nonneg or set()
         self.decisions = list(decisions or [])
         self._dpos = 0
+        self._decided: Dict[str, bool] = {}
         self.conds: List[Tuple[str, bool]] = []
         self.events: List[tuple] = []
         self.depth = 0
@@ -192,6 +193,13 @@ class Interp:
 
     # ---------------------------------------------------------------- decisions
     def decide(self, text: str) -> bool:
+        if text in self._decided:
+            return self._decided[text]
+        d = self._decide(text)
+        self._decided[text] = d
+        return d
+
+    def _decide(self, text: str) -> bool:
         if self._dpos < len(self.decisions):
             d = self.decisions[self._dpos]
         else:
@@ -1049,6 +1057,10 @@ class Interp:
         if isinstance(e.op, ast.Not):
             return not self.truth(v, e.operand)
         if isinstance(e.op, ast.USub):
+            if isinstance(v, Arr):
+                return Arr([-x if is_num(x) else Unknown("neg") for x in v.items])
+            if isinstance(v, bool):
+                return num(-int(v))
             if is_num(v):
                 return -v
             if isinstance(v, Unknown):
@@ -1061,6 +1073,16 @@ class Interp:
 
     def e_Compare(self, e, fr):
         left = self.eval(e.left, fr)
+        if len(e.ops) == 1 and isinstance(left, Obj) and "__compare__" in left.attrs:
+            return self.call(left.attrs["__compare__"], [e.ops[0], self.eval(e.comparators[0], fr)], {})
+        if len(e.ops) == 1 and isinstance(e.ops[0], (ast.Lt, ast.LtE, ast.Gt, ast.GtE)):
+            right0 = self.eval(e.comparators[0], fr)
+            if isinstance(left, Arr) and (is_num(right0) or isinstance(right0, Arr)):
+                rs = right0.items if isinstance(right0, Arr) else [right0] * len(left.items)
+                return BoolVec([self.compare(x, e.ops[0], y) for x, y in zip(left.items, rs)])
+            if not self.compare(left, e.ops[0], right0, e):
+                return False
+            return True
         if len(e.ops) == 1 and isinstance(e.ops[0], (ast.Eq, ast.NotEq)):
             right0 = self.eval(e.comparators[0], fr)
             if isinstance(left, (Arr, Arr2)) or isinstance(right0, (Arr, Arr2)):
@@ -1147,6 +1169,16 @@ class Interp:
             return Col([self.binop(x, op, b, node) for x in a.items])
         if is_num(a) and isinstance(b, Col):
             return Col([self.binop(a, op, y, node) for y in b.items])
+        if isinstance(a, Obj) and "__binop__" in a.attrs:
+            return self.call(a.attrs["__binop__"], [op, b, False], {})
+        if isinstance(b, Obj) and "__binop__" in b.attrs:
+            return self.call(b.attrs["__binop__"], [op, a, True], {})
+        if isinstance(a, Arr) and isinstance(b, Arr) and len(a.items) == len(b.items):
+            return Arr([self.binop(x, op, y, node) for x, y in zip(a.items, b.items)])
+        if isinstance(a, Arr) and (is_num(b) or isinstance(b, bool)):
+            return Arr([self.binop(x, op, b, node) for x in a.items])
+        if isinstance(b, Arr) and (is_num(a) or isinstance(a, bool)):
+            return Arr([self.binop(a, op, y, node) for y in b.items])
         if isinstance(a, Arr) or isinstance(b, Arr):
             return Unknown("arr-arith")
         raise NotInFragment(f"binop {type(op).__name__} on {type(a).__name__},{type(b).__name__}" + (f" at {norm(node)}" if node is not None else ""))
@@ -1804,6 +1836,23 @@ def arr_method(it: Interp, a: Arr, attr: str):
         return BoundBuiltin(lambda i, ar, k: {"max": _minmax("max"), "min": _minmax("min"), "sum": _b_sum}[attr](i, [a.items], {}))
     if attr == "tolist":
         return BoundBuiltin(lambda i, ar, k: list(a.items))
+    if attr == "astype":
+        def astype(i, ar, k):
+            t = repr_type(ar[0]) if ar else ""
+            if "bool" in str(t):
+                return Arr([i.truth(x) for x in a.items])
+            return Arr(list(a.items))
+        return BoundBuiltin(astype)
+    if attr == "cumsum":
+        def cumsum(i, ar, k):
+            out, acc = [], num(0)
+            for x in a.items:
+                acc = acc + (num(int(x)) if isinstance(x, bool) else x)
+                out.append(acc)
+            return Arr(out)
+        return BoundBuiltin(cumsum)
+    if attr == "mean":
+        return BoundBuiltin(lambda i, ar, k: (_b_sum(i, [a.items], {}) / num(len(a.items))) if a.items else NAN)
     raise NotInFragment(f"ndarray.{attr}")
 
 
@@ -1951,7 +2000,40 @@ def _np_all(it, args, kw):
     return Unknown("np.all")
 
 
+def _np_clip(it, args, kw):
+    a, lo, hi = args[0], args[1], args[2]
+    def c1(x):
+        if lo is not None and it.decide_num(x, ast.Lt(), lo):
+            return lo
+        if hi is not None and it.decide_num(x, ast.Gt(), hi):
+            return hi
+        return x
+    if isinstance(a, Arr):
+        return Arr([c1(x) for x in a.items])
+    return c1(a)
+
+
+def _np_max_accumulate(it, args, kw):
+    a = args[0]
+    out, best = [], None
+    for x in a.items:
+        x = num(int(x)) if isinstance(x, bool) else x
+        if best is None or it.decide_num(x, ast.Gt(), best):
+            best = x
+        out.append(best)
+    return Arr(out)
+
+
 def _np_where(it, args, kw):
+    if len(args) == 3:
+        c, a, b = args
+        cs = c.items if isinstance(c, (BoolVec, Arr)) else None
+        if cs is None:
+            return a if it.truth(c) else b
+        n = len(cs)
+        la = a.items if isinstance(a, Arr) else [a] * n
+        lb = b.items if isinstance(b, Arr) else [b] * n
+        return Arr([x if it.truth(cc) else y for cc, x, y in zip(cs, la, lb)])
     v = args[0]
     if isinstance(v, BoolVec) and len(args) == 1:
         return (Arr([num(i) for i, b in enumerate(v.items) if b]),)
@@ -1974,6 +2056,8 @@ DEFAULT_EXT: Dict[str, Callable] = {
     "numpy.delete": _np_delete,
     "numpy.all": _np_all,
     "numpy.where": _np_where,
+    "numpy.clip": _np_clip,
+    "numpy.maximum.accumulate": _np_max_accumulate,
     "numpy.array": _np_array,
     "numpy.abs": _b_abs,
     "numpy.nan": None,  # attribute, handled below
